@@ -509,3 +509,86 @@ example :
   decide
 
 end RV.Sel
+
+/-! ### What the step-down budget counts: distinct releases, not files -/
+namespace RV.Sel
+
+theorem insertVer_nodup (v : Nat) (t : List Nat) (h : t.Nodup) : (insertVer v t).Nodup := by
+  unfold insertVer
+  by_cases hc : v ∈ t
+  · have : t.contains v = true := by simpa using hc
+    simp only [this, if_true]; exact h
+  · have : t.contains v = false := by simpa using hc
+    simp only [this]
+    exact List.nodup_cons.2 ⟨hc, h⟩
+
+theorem mem_insertVer (v w : Nat) (t : List Nat) : w ∈ insertVer v t ↔ w = v ∨ w ∈ t := by
+  unfold insertVer
+  by_cases hc : v ∈ t
+  · have hb : t.contains v = true := by simpa using hc
+    simp only [hb, if_true]
+    constructor
+    · exact Or.inr
+    · rintro (rfl | h)
+      · exact hc
+      · exact h
+  · have hb : t.contains v = false := by simpa using hc
+    simp only [hb]
+    exact List.mem_cons
+
+/-- the tried list never holds a version twice -/
+theorem triedAfter_nodup (P : Params) (pre : List Cand) (t : List Nat) (h : t.Nodup) : (triedAfter P pre t).Nodup := by
+  induction pre generalizing t with
+  | nil => simpa [triedAfter]
+  | cons c cs ih =>
+    unfold triedAfter
+    split
+    · exact ih t h
+    · exact ih _ (insertVer_nodup _ _ h)
+
+/-- every version on the tried list is the version of a candidate that was walked and not skipped -/
+theorem mem_triedAfter (P : Params) (pre : List Cand) (t : List Nat) (v : Nat) (h : v ∈ triedAfter P pre t) :
+    v ∈ t ∨ ∃ e ∈ pre, e.ver = v ∧ skipped P e = false := by
+  induction pre generalizing t with
+  | nil => exact Or.inl (by simpa [triedAfter] using h)
+  | cons c cs ih =>
+    unfold triedAfter at h
+    split at h
+    · rcases ih t h with h' | ⟨e, he, hv, hs⟩
+      · exact Or.inl h'
+      · exact Or.inr ⟨e, List.mem_cons_of_mem _ he, hv, hs⟩
+    · rename_i hs
+      rcases ih _ h with h' | ⟨e, he, hv, hs'⟩
+      · rcases (mem_insertVer _ _ _).1 h' with rfl | h''
+        · exact Or.inr ⟨c, by simp, rfl, by simpa using hs⟩
+        · exact Or.inl h''
+      · exact Or.inr ⟨e, List.mem_cons_of_mem _ he, hv, hs'⟩
+
+/-- **giving_up_counts_distinct_versions**: when a request is given up although a usable, readable candidate `d` is
+on offer, there is a duplicate-free list of at least `budget` *versions*, each of them the version of a candidate
+that sorts at or above `d`, was tried (not skipped for `--only-binary`) and could not be used.  Any number of
+unreadable files of fewer releases than the budget never ends the search. -/
+theorem giving_up_counts_distinct_versions (P : Params) (cs : List Cand) (asked : List Nat)
+    (h : select P cs = (none, asked)) :
+    ∃ ap, ∀ d ∈ cs, usable P.hasEq ap d = true → good P d = true →
+      ∃ (b : Nat) (vs : List Nat), P.budget = some b ∧ b ≤ vs.length ∧ vs.Nodup ∧
+        ∀ v ∈ vs, ∃ e ∈ cs, e.ver = v ∧ usable P.hasEq ap e = true ∧ good P e = false ∧ skipped P e = false ∧ keyGe e d := by
+  obtain ⟨ap, _, hall⟩ := select_none P cs asked h
+  refine ⟨ap, fun d hd hu hg => ?_⟩
+  obtain ⟨b, pre, hb, hpre, hlen⟩ := hall d hd hu hg
+  refine ⟨b, triedAfter P pre [], hb, hlen, triedAfter_nodup P pre [] List.nodup_nil, ?_⟩
+  intro v hv
+  rcases mem_triedAfter P pre [] v hv with h0 | ⟨e, he, hev, hs⟩
+  · simp at h0
+  · obtain ⟨hec, heu, heg, hek⟩ := hpre e he
+    exact ⟨e, hec, hev, heu, heg, hs, hek⟩
+
+/-- non-vacuity, and the reading the code must not have: three unreadable *files* of two releases and a good older
+release, budget 3 - the older release is found (counting files, the search would have stopped at the third file) -/
+theorem three_bad_files_of_two_releases_do_not_exhaust_the_budget :
+    let bad (i v : Nat) : Cand := { id := i, nameOk := true, ver := v, isPre := false, tagsOk := true, specOk := true, specOkPre := true, typ := 1, extra := 0, tag := 0, readable := false, file := i }
+    let ok : Cand := { id := 9, nameOk := true, ver := 1, isPre := false, tagsOk := true, specOk := true, specOkPre := true, typ := 1, extra := 0, tag := 0, readable := true, file := 9 }
+    (select { allowPre := false, hasEq := false, reqHasPre := false, allowSdist := true, budget := some 3 } [bad 0 3, bad 1 3, bad 2 2, ok]).1 = some ok := by
+  decide
+
+end RV.Sel
